@@ -27,7 +27,7 @@ Proof.
   { intros T HT. apply (H T). unfold all_changes in *. simpl. apply in_or_app. right. assumption. }
   simpl. destruct tl as [|c1 [|c2 [|c3 rest]]]; try reflexivity.
   rewrite modifyUsingTemp_needs_drop.
-  - rewrite (IH Htl). reflexivity.
+  - rewrite (IH Htl). destruct (sc_changes c1); reflexivity.
   - intros T HT. apply (H T). unfold all_changes. simpl.
     apply in_or_app. right. apply in_or_app. right. apply in_or_app. left. assumption.
 Qed.
@@ -134,7 +134,7 @@ Lemma modifyUsingTemp_some c0 c2 c3 prevT currT :
                currT = set_name addT (t_name prevT) /\
                ((exists f t, sc_changes c3 = [RenameTableC f t] /\ t_name f = t_name addT /\ t_name t = t_name prevT) \/
                 (exists X Y, sc_changes c3 = [DropTableC X; AddTableC Y] /\ t_name X = t_name addT /\
-                             has_prefix (t_name Y) (t_name prevT) = true)).
+                             t_name Y = t_name prevT)).
 Proof.
   unfold modifyUsingTemp. intros H.
   destruct (sc_changes c0) as [|a [|? ?]]; try discriminate; destruct a as [addT| | |]; try discriminate.
@@ -154,16 +154,17 @@ Proof.
   - destruct c3a as [|X| |]; simpl in H; try discriminate.
     destruct (name_eqb (t_name X) (t_name addT)) eqn:E1; simpl in H; [|discriminate].
     destruct c3b as [Y| | |]; simpl in H; try discriminate.
-    destruct (has_prefix (t_name Y) (trim_prefix (t_name addT) new_prefix)) eqn:E2; simpl in H; [|discriminate].
-    inversion H; subst. apply name_eqb_eq in E1. exists addT. repeat split; auto.
+    destruct (name_eqb (t_name Y) (trim_prefix (t_name addT) new_prefix)) eqn:E2; simpl in H; [|discriminate].
+    inversion H; subst. apply name_eqb_eq in E1, E2. exists addT. repeat split; auto.
     + rewrite E; reflexivity.
-    + right. exists X, Y. repeat split; auto. rewrite E. assumption.
+    + right. exists X, Y. repeat split; auto. congruence.
 Qed.
 
 (** A confirmed group is folded into one ModifyTable at the position of its first statement; every
     non-virtual column of the dropped table that the new table lacks is reported there with DS103
     (unless the history of that column name in the analysed list makes it temporary). *)
 Lemma rebuild_group c0 c1 c2 c3 rest prevT currT :
+  sc_changes c1 = [] ->
   modifyUsingTemp c0 c2 c3 = Some (prevT, currT) ->
   let cl := c0 :: c1 :: c2 :: c3 :: rest in
   rewriteTemp cl = mkSC (sc_pos c0) [ModifyTableC currT (tableDiff prevT currT)] :: rewriteTemp rest /\
@@ -171,12 +172,17 @@ Lemma rebuild_group c0 c1 c2 c3 rest prevT currT :
             column_state (rewriteTemp cl) (t_name currT) (c_name d) <> SpanTemporary ->
             exists ns, In (mkDiag DS103 (sc_pos c0) ns) (analyze_file cl) /\ In (c_name d) ns.
 Proof.
-  intros H cl.
+  intros H1 H cl.
   assert (R : rewriteTemp cl = mkSC (sc_pos c0) [ModifyTableC currT (tableDiff prevT currT)] :: rewriteTemp rest).
-  { unfold cl. simpl. rewrite H. reflexivity. }
+  { unfold cl. simpl. rewrite H1, H. reflexivity. }
   split; [assumption|].
   intros d Hd Hf V Hst. unfold analyze_file. apply Analyze_DS103.
   exists (mkSC (sc_pos c0) [ModifyTableC currT (tableDiff prevT currT)]), currT, (tableDiff prevT currT), d.
   split; [rewrite R; left; reflexivity|]. split; [reflexivity|].
   split; [left; reflexivity|]. split; [apply in_tableDiff_dropcol; auto|]. auto.
 Qed.
+
+(** A statement in the copy slot that changes the schema prevents the fold: it stays in the analysed list. *)
+Lemma copy_slot_kept c0 c1 c2 c3 rest :
+  sc_changes c1 <> [] -> rewriteTemp (c0 :: c1 :: c2 :: c3 :: rest) = c0 :: rewriteTemp (c1 :: c2 :: c3 :: rest).
+Proof. intros H. simpl. destruct (sc_changes c1); [contradiction|reflexivity]. Qed.
